@@ -162,7 +162,7 @@ fn res_counts() -> (usize, usize) {
 
 /// runs `f` in a forked child that has dropped to uid/gid 65534 with RLIMIT_MEMLOCK = 0 (an ordinary,
 /// unprivileged client process) and returns the text it produced; `crash <status>` if the child died
-fn in_unprivileged_child(f: impl FnOnce() -> String) -> String {
+pub fn in_unprivileged_child(f: impl FnOnce() -> String) -> String {
     use std::io::Read;
     use std::os::unix::io::FromRawFd;
     let mut fds = [0i32; 2];
